@@ -30,7 +30,7 @@ func H_C01_direct() {
 		i := i
 		reqs[i] = vfInt32("req")
 		go func() {
-			out := &testproto.Msg{}
+			out := &testproto.Msg{Value: 0x5eed} // a reply object the caller has used before: it must be overwritten
 			errs[i] = cc.Invoke(context.Background(), "/"+zzSvcName+"/Unary", &testproto.Msg{Value: reqs[i]}, out)
 			reps[i] = out.GetValue()
 			done[i] = true
